@@ -296,6 +296,27 @@ fn bal_of(c: &CallRec, denom: &str) -> u128 {
 }
 
 pub fn c17_dispatcher(_m: &mut Mon, ctx: &StepCtx, stats: &mut Stats, out: &mut Vec<Violation>) {
+    // the fee is taken at the rate the owner configured (model fed from committed messages), not
+    // at whatever a faulty update left in storage
+    if let (Some(pre_d), Some(post_d)) = (&ctx.pre.dispatcher, &ctx.post.dispatcher) {
+        if _m.keeper_rate_model.is_none() {
+            _m.keeper_rate_model = Some(pre_d.krp_keeper_rate);
+        }
+        if ctx.committed() {
+            if let Some((DISPATCHER, "update_config")) = ctx.top() {
+                if let Some(x) = ctx.tx.and_then(|t| t.msg.get("update_config")).and_then(|b| b.get("krp_keeper_rate")).and_then(|v| v.as_str()).and_then(|s| s.parse::<cosmwasm_std::Decimal>().ok()) {
+                    _m.keeper_rate_model = Some(x);
+                }
+            }
+        }
+        stats.check("c17_keeper_rate_model");
+        if Some(post_d.krp_keeper_rate) != _m.keeper_rate_model {
+            let msg = format!("dispatcher stores keeper rate {} but the owner's committed configuration says {:?} (after {:?})", post_d.krp_keeper_rate, _m.keeper_rate_model, ctx.top());
+            viol(out, "C17", "keeper_rate_follows_configuration", ctx.idx, "dispatcher.Config:keeper_rate_model", msg.clone());
+            viol(out, "C19", "keeper_fee_at_configured_rate", ctx.idx, "dispatcher.Config:keeper_rate_model", msg);
+            _m.keeper_rate_model = Some(post_d.krp_keeper_rate);
+        }
+    }
     if let Some(d) = &ctx.post.dispatcher {
         if d.krp_keeper_rate > cosmwasm_std::Decimal::one() {
             viol(out, "C17", "keeper_rate_le_one", ctx.idx, "dispatcher.Config:keeper_rate", format!("keeper rate {}", d.krp_keeper_rate));
